@@ -48,9 +48,9 @@ theorem C03_old_variance_formula (cfg : MlCfg C D ℝ) (p : Params C D ℝ) (st 
   unfold mlRawVarOld mlRawVar; ring
 
 theorem C03_old_eq_new_when_means_updated (cfg : MlCfg C D ℝ) (p : Params C D ℝ) (st : Stats C D ℝ)
-    (h : cfg.updMeans = true) (c : Fin C) (d : Fin D) :
+    (h : cfg.updMeans = true) (c : Fin C) (d : Fin D) (hc : ¬ st.n c < cfg.countThr) :
     mlRawVarOld cfg p st c d = mlRawVar cfg p st c d := by
-  rw [C03_old_variance_formula]; simp [mlMeans, h]
+  rw [C03_old_variance_formula]; simp [mlMeans, h, hc]
 
 /-- criterion reported at iteration `j ≥ 1` of `fit` -/
 noncomputable def gmmCrit (cfg : MlCfg (C+1) D ℝ) (xs : List (Fin D → ℝ)) (p0 : Params (C+1) D ℝ) (j : ℕ) : ℝ :=
